@@ -15,7 +15,7 @@ CLAIM = dict(
          'Units.UnitConvert.convert / Units.convert are translated from the current source to z3 Real terms; round trip, transitivity, identity '
          'and array == scalar are proved for EVERY scale != 0, offset and value (hence for every pair/triple of table entries), and the refusal '
          'paths (dimension / category mismatch, unknown unit) are shown to raise a units error on every path. Exact over the reals; floating-point '
-         'rounding is outside the claim.',
+         'rounding is outside the claim. The RP66V1 entry with its per-producer unit spelling map is decided on 4 producer codes x 12 x 12 unit spellings.',
     note='Trusted: z3 NRA, py2smt. The tables (osdd_units.json, LIS __RAW_UNIT_MAP) enter through checked side conditions: every scale/multiplier is '
          'finite and non-zero, LIS unit names are unique across categories. numpy element-wise broadcasting is trusted. Units.convert is encoded on an '
          'abstract 2-category x 2-unit table (the code is table-generic).',
@@ -207,13 +207,18 @@ def ob_lis_refusal():
         tot = 0
         funcs = set()
         last = None
-        for u1 in (0, 1, 2, 3, 9):
-            for u2 in (0, 1, 2, 3, 9):
+        for u1, u2, omask in [(a, b, k) for a in (0, 1, 2, 3, 9) for b in (0, 1, 2, 3, 9) for k in range(4)]:
+            if True:
+                # omask: which of the two units carry an offset (bit 0: the source unit, bit 1: the target unit); units not involved have none
                 ctx = P.Ctx(int_mode='int', float_mode='real')
                 I = P.Interp(ctx)
                 v = z3.Real('v')
                 mults = [z3.Real('mult_%d' % i) for i in range(4)]
-                objs = [ctx.new_obj(LU.UnitConvert, {'name': i, 'mult': P.SFloat(mults[i]), 'offs': None, 'desc': '', 'real': None}) for i in range(4)]
+                offs = [z3.Real('offs_%d' % i) for i in range(4)]
+                has = [(i == u1 and bool(omask & 1)) or (i == u2 and bool(omask & 2)) for i in range(4)]
+                if u1 == u2 and omask in (1, 2):
+                    continue
+                objs = [ctx.new_obj(LU.UnitConvert, {'name': i, 'mult': P.SFloat(mults[i]), 'offs': P.SFloat(offs[i]) if has[i] else None, 'desc': '', 'real': None}) for i in range(4)]
                 cats = [ctx.new_obj(LU.UnitConvertCategory, {'cat': c, 'desc': '', 'base': 2 * c, '_unitMap': {2 * c: objs[2 * c], 2 * c + 1: objs[2 * c + 1]}}) for c in (0, 1)]
                 g = dict(LU.convert.__globals__)
                 g['__UNIT_TO_CATEGORY_MAP'] = {0: 0, 1: 0, 2: 1, 3: 1}
@@ -226,7 +231,10 @@ def ob_lis_refusal():
                 out = I.call(conv, [P.SFloat(v), u1, u2])
                 same = u1 != 9 and u2 != 9 and (u1 // 2 == u2 // 2)
                 if same:
-                    goal = [out.ok(), ctx.lift_float(out.value) * mults[u2] == v * mults[u1]]
+                    # through the base unit: subtract the source offset, scale, add the target offset (whichever of the two has one)
+                    o1 = offs[u1] if has[u1] else z3.RealVal(0)
+                    o2 = offs[u2] if has[u2] else z3.RealVal(0)
+                    goal = [out.ok(), (ctx.lift_float(out.value) - o2) * mults[u2] == (v - o1) * mults[u1]]
                 else:
                     goal = [out.raised('ExceptionUnitsUnknownUnit', 'ExceptionUnitsMissmatchedCategory', 'ExceptionUnitsNoUnitInCategory', 'ExceptionUnits')]
                 r = P.decide([m_ != 0 for m_ in mults], goal, side=ctx.side)
@@ -235,7 +243,7 @@ def ob_lis_refusal():
                 if r['verdict'] != 'unsat':
                     r['queries'] = tot
                     if r['verdict'] == 'sat':
-                        r['model'].update(u1=u1, u2=u2)
+                        r['model'].update(u1=u1, u2=u2, omask=omask)
                     return r
                 last = r
         last['queries'] = tot
@@ -243,19 +251,36 @@ def ob_lis_refusal():
         return last
 
     def replay(m):
+        from fractions import Fraction
         from TotalDepth.LIS.core import Units as LU
+        same = m['u1'] != 9 and m['u2'] != 9 and m['u1'] // 2 == m['u2'] // 2
+        if same:
+            # the model's multipliers, offsets and value on a scratch category object (the real class, the real convert)
+            g = lambda k, d: float(Fraction(m[k])) if k in m else d
+            omask = m.get('omask', 0)
+            def mk(i, with_off):
+                t = (bytes([65 + i]) * 4, g('mult_%d' % i, 1.0), g('offs_%d' % i, 0.0), 'd', b'    ') if with_off else (bytes([65 + i]) * 4, g('mult_%d' % i, 1.0), 'd', b'    ')
+                return LU.UnitConvert(t)
+            a, b = mk(m['u1'], bool(omask & 1)), mk(m['u2'], bool(omask & 2))
+            if m['u1'] == m['u2']:
+                b = a
+            cat = LU.UnitConvertCategory.__new__(LU.UnitConvertCategory)
+            cat.cat, cat.desc, cat.base, cat._unitMap = b'CAT ', 'd', a.name, {a.name: a, b.name: b}
+            v = g('v', 0.0)
+            got = cat.convert(v, a.name, b.name)
+            o1 = a.offs if a.offs is not None else 0.0
+            o2 = b.offs if b.offs is not None else 0.0
+            want = (v - o1) * a.mult / b.mult + o2
+            bad = not math.isclose(got, want, rel_tol=1e-9, abs_tol=1e-9 * (1 + abs(v) + abs(o1) + abs(o2)))
+            return bad, 'UnitConvertCategory.convert(%r, mult %r offs %r -> mult %r offs %r) = %r, through the base unit %r' % (v, a.mult, a.offs, b.mult, b.offs, got, want)
         names = {0: b'FEET', 1: b'INCH', 2: b'S   ', 3: b'MS  ', 9: b'????'}
         u1, u2 = names[m['u1']], names[m['u2']]
-        same = m['u1'] != 9 and m['u2'] != 9 and m['u1'] // 2 == m['u2'] // 2
         try:
             got = LU.convert(1.0, u1, u2)
-            res = 'returned %r' % (got,)
-            ok = same
+            return True, 'Units.convert(1.0, %r, %r): returned %r' % (u1, u2, got)
         except LU.ExceptionUnits as e:
-            res = type(e).__name__
-            ok = not same
-        return not ok, 'Units.convert(1.0, %r, %r): %s' % (u1, u2, res)
-    return Ob('lis_convert_refusal', 'smt', 'abstract table of 2 categories x 2 units + an unknown unit: all 25 (from, to) pairs, every multiplier != 0 and value',
+            return False, 'Units.convert(1.0, %r, %r): %s' % (u1, u2, type(e).__name__)
+    return Ob('lis_convert_refusal', 'smt', 'abstract table of 2 categories x 2 units + an unknown unit: all 25 (from, to) pairs, offsets present/absent on the two units, every multiplier != 0, offset and value: the value through the base unit, or the refusal',
               ['LIS.core.Units.convert', 'Units.UnitConvertCategory.convert/unitConvertor', 'Units.UnitConvert.convert'], fn=fn, replay=replay)
 
 
@@ -265,4 +290,9 @@ def obligations(tier):
             Ob('array_conversion_types_and_shapes', 'ch', 'convert_array / convert_array_inplace on arrays of float64, float32, int64, int32, int16, uint8 (1-D and 2x2), 7 unit pairs of the packaged OSDD table '
                '(with and without offsets, identity), 4 value sets: equal to element-wise scalar conversion, argument left untouched',
                ['common.units.convert_array', 'common.units.convert_array_inplace', 'common.units.convert', 'common.units.read_osdd_static_data'],
-               harness='C17_arrays', func='array_conversion', timeout=170 if q else 600, unblock=True, stubs=['reads the packaged osdd_units.json'])]
+               harness='C17_arrays', func='array_conversion', timeout=170 if q else 600, unblock=True, stubs=['reads the packaged osdd_units.json']),
+            Ob('rp66_producer_code_unit_conversion', 'ch', 'RP66V1.core.Units.convert / convert_function: 4 producer codes (none, the built-in map of producer 280, a map registered through the extension point, '
+               'an unknown producer) x every ordered pair of 12 unit spellings (mapped, unmapped, OSDD codes, another dimension, unknown) x 3 values: the OSDD conversion of the mapped units, or the documented refusal',
+               ['RP66V1.core.Units.convert', 'RP66V1.core.Units.convert_function', 'common.units.slb_units', 'common.units.convert'],
+               harness='C17_rp66', func='rp66_units_wrapper', timeout=170 if q else 600, unblock=True,
+               stubs=['reads the packaged osdd_units.json', 'the online OSDD lookup is made to fail so that the packaged table is used'])]
